@@ -10,6 +10,8 @@ pub struct InternedString(Spur);
 
 impl InternedString {
     pub fn get_or_intern<T: AsRef<str>>(s: T) -> Self {
+        #[cfg(grass_verif)]
+        crate::verif::point(crate::verif::Site::Intern);
         Self(STRINGS.with(|interner| interner.borrow_mut().get_or_intern(s)))
     }
 
